@@ -149,6 +149,11 @@ package main
 //@   at recv sigch: ghost interrupted = true
 //@   at call Decode: assert [each-record-once-in-order] result == nil ==> rec(arg1) == ditem(d, n)
 //@   at call Add: assert [adds-the-record-just-decoded] rec(arg0) == ditem(d, n) ; ghost n = n + 1
+//@   ghost parsedBuckets bool = false
+//@   at call UnmarshalText: ghost parsedBuckets = true
+//@   ghost opened bool = false
+//@   at call file: ghost opened = (result1 == nil)
+//@   ensures [an-inline-bucket-spec-of-any-length-is-handed-to-the-parser] opened && hasprefix(typ, "hist") && typ != "plot" && typ != "text" && typ != "json" && typ != "hdrplot" && bucketsStr == "" && len(typ) >= 6 ==> parsedBuckets
 //@   ensures [all-records-added-unless-interrupted] err == nil && !interrupted && d != 0 ==> n == dlen(d)
 //@   loop 1
 //@     invariant d != 0 && d == ref(dec) && 0 <= n && n == dpos(d) && n <= dlen(d) && !interrupted
